@@ -300,6 +300,7 @@ func c11Result(p *Prog, r *Report, rule string) {
 // hand-proved loops: function → reason
 var provedLoops = map[string]string{
 	"hermes.KalenderDate:for":      "month search: the month counter increases by one per iteration and the loop breaks at the latest when it reaches the 12-entry table's end (year estimate corrected first)",
+	"hermes.Nitro:event-cursor":    "event cursor: every iteration moves the cursor to the next slot of the schedule; the input routine leaves adjacent scheduled slots with different dates (same-day shift, C10.R2), only the residue pseudo-event in slot 0 can share its day with slot 1, and the slots behind the schedule hold 0: at most two iterations on a day",
 	"hermes.HermesSession.Run:day": "day loop: ZEIT increases by DT ≥ 1 per iteration towards ENDE; ENDE is reassigned only to a value ≥ the current day",
 }
 
@@ -509,6 +510,26 @@ notScanner:
 					return loopClass{true, "counted", "counted loop"}
 				}
 			}
+		}
+	}
+	// event cursor: "for today == date[cursor.Index]+k && … { …; cursor.Inc() }" — hand-proved, shape re-validated
+	if t.Cond != nil && fi.Key == "hermes.Nitro" && c10BodyAdvancesCursor(t.Body, t.Cond) {
+		writes := false
+		ast.Inspect(t.Cond, func(m ast.Node) bool {
+			if ix, ok := m.(*ast.IndexExpr); ok {
+				if se, ok := ix.X.(*ast.SelectorExpr); ok {
+					if sel, ok := info.Selections[se]; ok && sel.Kind() == types.FieldVal {
+						name, _ := namedStruct(sel.Recv())
+						if bodyWritesField(p, fi, t.Body, FieldRef{name, se.Sel.Name}) {
+							writes = true
+						}
+					}
+				}
+			}
+			return true
+		})
+		if !writes {
+			return loopClass{true, "table", "hand-proved: " + provedLoops["hermes.Nitro:event-cursor"] + " (re-validated: the body advances the cursor on every iteration and does not write the date table)"}
 		}
 	}
 	// table
